@@ -40,6 +40,10 @@ def GoodM (P : EP) (Q : Nat → Expr → Prop) : View → RState → Prop
       (left = true → GoodM P Q a inner) ∧ (left = false → GoodM P Q b inner)
   | .forKeyed sel lists, .forK e sel' lists' ks _ =>
     sel = sel' ∧ lists = lists' ∧ P e sel (fun v => ks.hashed = listAt lists v) ∧ KOK ks
+  -- a `Result` leaf; a boundary: its effect reads the memo `m = s + 1` over the register `s`
+  | .res c x, .res e c' x' _ last _ => c = c' ∧ x = x' ∧ P e (resBody c x) (fun v => last = decodeRes v)
+  | .eb kid, .errb e m s fb k =>
+    m = s + 1 ∧ P e (.rd true m) (fun v => fb.isSome = (v == 0)) ∧ GoodM P Q kid k
   | _, _ => False
 
 theorem GoodM.map {P P' : EP} {Q Q' : Nat → Expr → Prop} : ∀ (v : View) (t : RState), GoodM P Q v t →
@@ -84,8 +88,16 @@ theorem GoodM.map {P P' : EP} {Q Q' : Nat → Expr → Prop} : ∀ (v : View) (t
     next e sel' lists' ks texts => exact ⟨h.1, h.2.1, hm e _ _ (by simp [effsOf]) h.2.2.1, h.2.2.2⟩
   | scope sid d kid _ => intro t h _ _; cases t <;> simp only [GoodM] at h
   | forRows en sel lists row _ => intro t h _ _; cases t <;> simp only [GoodM] at h
-  | eb kid _ => intro t h _ _; cases t <;> simp only [GoodM] at h
-  | res c x => intro t h _ _; cases t <;> simp only [GoodM] at h
+  | eb kid ih =>
+    intro t h hm hq
+    cases t <;> simp only [GoodM] at h ⊢
+    next e m s fb k =>
+      exact ⟨h.1, hm e _ _ (by simp [effsOf]) h.2.1,
+        ih k h.2.2 (fun e x cur he => hm e x cur (by simp [effsOf, he])) hq⟩
+  | res c x =>
+    intro t h hm _
+    cases t <;> simp only [GoodM] at h ⊢
+    next e c' x' n last hook => exact ⟨h.1, h.2.1, hm e _ _ (by simp [effsOf]) h.2.2⟩
 
 theorem GoodM.viewOf {P : EP} {Q : Nat → Expr → Prop} : ∀ (v : View) (t : RState), GoodM P Q v t →
     RView.viewOf t = v := by
@@ -109,8 +121,10 @@ theorem GoodM.viewOf {P : EP} {Q : Nat → Expr → Prop} : ∀ (v : View) (t : 
   | forKeyed sel lists => intro t h; cases t <;> simp only [GoodM] at h; simp [RView.viewOf, h.1, h.2.1]
   | scope sid d kid _ => intro t h; cases t <;> simp only [GoodM] at h
   | forRows en sel lists row _ => intro t h; cases t <;> simp only [GoodM] at h
-  | eb kid _ => intro t h; cases t <;> simp only [GoodM] at h
-  | res c x => intro t h; cases t <;> simp only [GoodM] at h
+  | eb kid ih =>
+    intro t h; cases t <;> simp only [GoodM] at h
+    next e m s fb k => simp only [RView.viewOf, ih k h.2.2]
+  | res c x => intro t h; cases t <;> simp only [GoodM] at h; simp [RView.viewOf, h.1, h.2.1]
 
 theorem GoodM.plain {P : EP} {Q : Nat → Expr → Prop} (v : View) (t : RState) (h : GoodM P Q v t) :
     t.plain = true := by
@@ -146,8 +160,10 @@ theorem GoodM.locals_nil {P : EP} {Q : Nat → Expr → Prop} : ∀ (v : View) (
   | forKeyed sel lists => intro t h; cases t <;> simp only [GoodM] at h; rfl
   | scope sid d kid _ => intro t h; cases t <;> simp only [GoodM] at h
   | forRows en sel lists row _ => intro t h; cases t <;> simp only [GoodM] at h
-  | eb kid _ => intro t h; cases t <;> simp only [GoodM] at h
-  | res c x => intro t h; cases t <;> simp only [GoodM] at h
+  | eb kid ih =>
+    intro t h; cases t <;> simp only [GoodM] at h
+    next e m s fb k => simp only [RState.locals, ih k h.2.2]
+  | res c x => intro t h; cases t <;> simp only [GoodM] at h; rfl
 
 /-- bounds of the effects of a tree whose effects exist -/
 theorem GoodM.bound {K : Nat} {st : St} {Q : Nat → Expr → Prop} : ∀ (v : View) (t : RState),
@@ -204,8 +220,19 @@ theorem GoodM.bound {K : Nat} {st : St} {Q : Nat → Expr → Prop} : ∀ (v : V
       simp only [effsOf, List.mem_singleton] at he; subst he; exact ⟨h.2.2.1.1, h.2.2.1.2.1⟩
   | scope sid d kid _ => intro t h _ _; cases t <;> simp only [GoodM] at h
   | forRows en sel lists row _ => intro t h _ _; cases t <;> simp only [GoodM] at h
-  | eb kid _ => intro t h _ _; cases t <;> simp only [GoodM] at h
-  | res c x => intro t h _ _; cases t <;> simp only [GoodM] at h
+  | eb kid ih =>
+    intro t h e he
+    cases t <;> simp only [GoodM] at h
+    next e' m s fb k =>
+      simp only [effsOf, List.mem_cons] at he
+      rcases he with he | he
+      · subst he; exact ⟨h.2.1.1, h.2.1.2.1⟩
+      · exact ih k h.2.2 e he
+  | res c x =>
+    intro t h e he
+    cases t <;> simp only [GoodM] at h
+    next e' c' x' n last hook =>
+      simp only [effsOf, List.mem_singleton] at he; subst he; exact ⟨h.2.2.1, h.2.2.2.1⟩
 
 /-- a tree held by the task of a dropped effect -/
 structure ZTreeM (K : Nat) (st : St) (h : RState) : Prop where
@@ -319,8 +346,8 @@ theorem held_okM {K : Nat} {st : St} : ∀ (v : View) (t : RState),
       exact ⟨by simp [effsOf], fun h' hh => by cases hh⟩
   | scope sid d kid _ => intro t h _ _ _ _; cases t <;> simp only [GoodM] at h
   | forRows en sel lists row _ => intro t h _ _ _ _; cases t <;> simp only [GoodM] at h
-  | eb kid _ => intro t h _ _ _ _; cases t <;> simp only [GoodM] at h
-  | res c x => intro t h _ _ _ _; cases t <;> simp only [GoodM] at h
+  | eb kid _ => intro t _ _ hc; simp [View.coreS] at hc
+  | res c x => intro t _ _ hc; simp [View.coreS] at hc
 
 /-- every effect of a tree carries its predicate -/
 theorem GoodAttrP.effP {P : EP} : ∀ {a : Attr} {s : AState}, GoodAttrP P a s → ∀ e ∈ s.effs, ∃ x cur, P e x cur := by
@@ -394,8 +421,19 @@ theorem GoodM.effP {P : EP} {Q : Nat → Expr → Prop} : ∀ (v : View) (t : RS
       simp only [effsOf, List.mem_singleton] at he; subst he; exact ⟨_, _, h.2.2.1⟩
   | scope sid d kid _ => intro t h _ _; cases t <;> simp only [GoodM] at h
   | forRows en sel lists row _ => intro t h _ _; cases t <;> simp only [GoodM] at h
-  | eb kid _ => intro t h _ _; cases t <;> simp only [GoodM] at h
-  | res c x => intro t h _ _; cases t <;> simp only [GoodM] at h
+  | eb kid ih =>
+    intro t h e he
+    cases t <;> simp only [GoodM] at h
+    next e' m s fb k =>
+      simp only [effsOf, List.mem_cons] at he
+      rcases he with he | he
+      · subst he; exact ⟨_, _, h.2.1⟩
+      · exact ih k h.2.2 e he
+  | res c x =>
+    intro t h e he
+    cases t <;> simp only [GoodM] at h
+    next e' c' x' n last hook =>
+      simp only [effsOf, List.mem_singleton] at he; subst he; exact ⟨_, _, h.2.2⟩
 
 theorem GoodAttrsP.wf_extM {K : Nat} {A : Nat → Prop} {st st' : St} {as : List Attr} {ss : List AState}
     (h : GoodAttrsP (EffWf K st) as ss) (hx : ExtM K A st st') : GoodAttrsP (EffWf K st') as ss :=
